@@ -85,6 +85,7 @@ Step ==
                   ELSE /\ PrintT(<<"DIVERGE", l>>)
                        /\ UNCHANGED SS /\ div' = TRUE
           /\ ~(M'.bad \subseteq M.bad) => PrintT(<<"MONITOR", l, M'.bad \ M.bad, M'.tags>>)
+          /\ ~(M'.tags \subseteq M.tags) => PrintT(<<"INFO", l, M'.tags \ M.tags>>)
 
 TraceNext == Step
 TraceSpec == TraceInit /\ [][TraceNext]_tvars
